@@ -674,6 +674,11 @@ class HttpStreamSession:
                         if not isinstance(token, bytes):
                             raise TypeError(f"Expected bytes for state token, got {type(token).__name__}")
                         _drain_stream(reader)
+                        if self._finished:
+                            # cancel() ran while this generator was suspended: the
+                            # stream's state has been released, so following the
+                            # token would make the server process it again.
+                            return
                         reader = self._send_continuation(token)
                         continue
 
